@@ -18,3 +18,11 @@ Proof. split; reflexivity. Qed.
 Lemma pin_eff_init_res_ok :
   forall r, init_res r = existsb (teqb (erule_text r)) pin_eff_init_true.
 Proof. destruct r; vm_compute; reflexivity. Qed.
+
+(* the modelled functions are textually the ones the model was aligned with *)
+From CV Require Import PinChecks.Frozen.
+Lemma pin_body_eff_ok :
+  pin_body_eff_new_stream = frozen_eff_new_stream /\
+  pin_body_eff_next = frozen_eff_next /\
+  pin_body_eff_push_effect = frozen_eff_push_effect.
+Proof. repeat split; reflexivity. Qed.
